@@ -130,6 +130,7 @@ fn trace_events(
     compiled: &Program,
     instance: &Program,
     res: &str,
+    verify: &str,
     extra: Value,
 ) -> Option<(Value, Value)> {
     let ccomp = compose(compiled).ok()?;
@@ -178,7 +179,7 @@ fn trace_events(
         .collect();
     let mut ev = json!({
         "ev": "prove", "id": id, "k": k, "what": extra,
-        "n": isnap.rows.len(), "ipi": ipi, "res": res, "verify": "n/a",
+        "n": isnap.rows.len(), "ipi": ipi, "res": res, "verify": verify,
         "full": fes_to_json(&isnap.witnesses),
     });
     if iw != cls {
@@ -361,11 +362,19 @@ fn exec(ctx: &mut Ctx, st: &mut State, id: &Value, step: &Value) -> Value {
                 let r = guarded(|| p.prove_with_version(&mut rng, &circ, version));
                 let unforced = outcome(&r);
                 out["unforced"] = json!(unforced);
+                // an assignment the prover accepts must also verify (C05 side)
+                let unforced_verify = match (&r, &st.verifier) {
+                    (Ok(Ok((proof, pis))), Some(v)) => {
+                        outcome(&guarded(|| v.verify_with_version(proof, pis, version)))
+                    }
+                    _ => "n/a".to_string(),
+                };
+                out["unforced_verify"] = json!(unforced_verify);
                 if let (Some(f), Some(compiled)) = (ctx.trace.as_mut(), st.prog.as_ref()) {
                     ctx.n_forced += 1;
                     let what = step.get("what").cloned().unwrap_or(json!({}));
                     if let Some((b, e)) =
-                        trace_events(id, ctx.n_forced, compiled, &prog, &unforced, what)
+                        trace_events(id, ctx.n_forced, compiled, &prog, &unforced, &unforced_verify, what)
                     {
                         writeln!(f, "{}", b).unwrap();
                         writeln!(f, "{}", e).unwrap();
